@@ -274,10 +274,59 @@ def make_unstorable(rng, f):
 
 
 # ---- runners ---------------------------------------------------------------------------------------------------------
+class _Full(io.BytesIO):
+    """a disk that fills up: the sixth write fails"""
+    n = 0
+
+    def write(self, b):
+        self.n += 1
+        if self.n > 5:
+            raise OSError(28, 'No space left on device')
+        return super().write(b)
+
+
+_SMF_NOISE = [0]
+
+
+def smf_noise(mf):
+    """What a program does around a save(): it uses the lists the length-prefix helper hands out (the library's own decoder works on its
+    argument in place), and now and then a save() of ANOTHER file is refused half way through a track and the exception caught. The save
+    that follows must not notice either."""
+    import mido
+    from mido.midifiles import meta as meta_mod
+    _SMF_NOISE[0] += 1
+    vals = {128, 300, 16384}
+    for tr in mf.tracks[:4]:
+        for m in tr[:40]:
+            if isinstance(m.time, int) and m.time >= 128:
+                vals.add(m.time)
+            n = len(getattr(m, 'data', None) or getattr(m, 'text', None) or getattr(m, 'name', None) or ())
+            if n >= 127:
+                vals |= {n, n + 1}
+    for v in sorted(vals):
+        try:
+            a = meta_mod.encode_variable_int(v)
+            meta_mod.decode_variable_int(a)
+            a.append(0)
+        except Exception:  # noqa: BLE001
+            pass
+    k = _SMF_NOISE[0] % 5
+    bad = [mido.Message('note_on', note=5, velocity=6, time=0.5), mido.Message('note_on', time=-1), mido.Message('clock'),
+           mido.MetaMessage('text', text='caf\u00e9 \u4e2d'), None][k]
+    other = mido.MidiFile(charset='ascii')
+    other.tracks.append(mido.MidiTrack([mido.Message('note_on', note=1, velocity=2, time=3), mido.MetaMessage('marker', text='left over', time=200),
+                                        mido.Message('sysex', data=[1] * 130, time=1)] + ([bad] if bad is not None else [])))
+    try:
+        other.save(file=_Full() if bad is None else io.BytesIO())
+    except Exception:  # noqa: BLE001
+        pass
+
+
 def run_save(f, cs=0):
     """-> (ints for comparison with the model, bytes or None, exception or None)"""
     try:
         mf = file_obj(dict(f, charset=CHARSETS[cs]))
+        smf_noise(mf)
         buf = io.BytesIO()
         mf.save(file=buf)
         bs = buf.getvalue()
